@@ -116,6 +116,19 @@ int main(int argc, char** argv) {
 		using Sub = decltype(std::declval<multi::array<int, RD>&>()());
 		if(std::is_copy_constructible_v<Sub>) violation("C16:view-copy-constructible", "a named view can be copy-constructed into another view object", false);
 		if(std::is_copy_constructible_v<multi::array_ref<int, RD>>) violation("C16:array_ref-copy-constructible", "array_ref is copy-constructible", false);
+		using CSub = decltype(std::declval<multi::array<int, RD> const&>()());
+		if(std::is_copy_constructible_v<CSub>) violation("C16:const-view-copy-constructible", "a named read-only view can be copy-constructed into another view object", false);
+		if(std::is_assignable_v<CSub&, CSub const&> || std::is_assignable_v<CSub&, Sub const&> || std::is_assignable_v<CSub&&, Sub const&>) violation("C16:const-view-assignable", "a read-only view accepts assignment", false);
+		{	// assignment to a view / array_ref assigns elements: it never rebinds or resizes the left-hand side
+			std::vector<int> b1(std::size_t(n), 1), b2(std::size_t(n), 2); for(L i = 0; i < n; ++i) b2[std::size_t(i)] = int(100 + i);
+			multi::array_ref<int, RD> R1(exts, b1.data()); multi::array_ref<int, RD> R2(exts, b2.data()); op("array_ref=array_ref"); R1 = R2;
+			if(R1.base() != b1.data() || R1.data_elements() != b1.data() || !(R1.extensions() == exts)) violation("C16:array_ref-rebound-by-assignment", "array_ref = array_ref changed what the left-hand side refers to", false);
+			if(b1 != b2) violation("C16:array_ref-assignment-not-elementwise", "array_ref = array_ref did not copy the elements", false);
+			multi::array<int, RD> B(exts, 5); op("array_ref=array"); R1 = B; if(R1.base() != b1.data() || b1 != std::vector<int>(std::size_t(n), 5)) violation("C16:array_ref-rebound-by-assignment", "array_ref = array rebinds or does not copy", false);
+			multi::array<int, RD> V1(exts, 3); auto&& v1 = V1(); auto const* base1 = V1.data_elements(); op("view=view"); v1 = R2(); if(V1.data_elements() != base1 || v1.base() != base1 || !(V1.extensions() == exts) || !std::equal(b2.begin(), b2.end(), V1.data_elements())) violation("C16:view-rebound-by-assignment", "view = view rebinds, resizes or does not copy", false);
+			op("view=move(view)"); std::move(v1) = B(); if(v1.base() != base1 || V1.data_elements()[0] != 5) violation("C16:view-rebound-by-assignment", "move(view) = view rebinds or does not copy", false);
+			count("rebinding_probes", 4);
+		}
 		count("paths_classified", n_paths); count("paths_writable", n_writable); count("writes_executed", n_executed); nontrivial(n_paths > 10);
 		describe(" paths=" + std::to_string(n_paths) + " writable=" + std::to_string(n_writable) + " executed=" + std::to_string(n_executed));
 	});
